@@ -400,7 +400,43 @@ pub fn run(prop: &str, tier: &str, seed: u64) -> Report {
         let r = parallel(cases.len(), util::threads(), |i, r| run_case(&cases[i], r, prop));
         total.merge(r);
     }
+    // ONE core builder object sealed from several times (configured once, and re-configured before each seal)
+    let mut rr = Report::new();
+    let mut rng = Rng::new(seed, "c01-core-reuse", 0);
     for &p in protos {
+        for k in 0..(if tier == "thorough" { 400 } else { 40 }) {
+            let key = pools.key(p, k % pools.count(p));
+            let footer = [None, Some("ftr"), Some("")][k % 3];
+            let ia = if p.has_assertion() { [None, Some("ia")][k % 2] } else { None };
+            let msg = rng.utf8_upto(if k % 5 == 0 { 3000 } else { 80 });
+            let n = 2 + k % 3;
+            let nonces: Vec<Vec<u8>> = (0..n).map(|_| rng.bytes(32)).collect();
+            let reconf = k % 4 == 3;
+            let outs = core_seal_many(p, &key, &nonces, &msg, footer, ia, reconf);
+            for (i, o) in outs.iter().enumerate() {
+                rr.evaluations += 1;
+                let replay = json!({"cmd": prop, "note": "core-builder-reuse case: re-run the check", "p": p.name(), "seal_no": i + 1, "footer": footer, "assertion": ia, "msg_len": msg.len()});
+                let back = match o {
+                    Out::Ok(t) => core_open(p, &key, t, footer, ia).0,
+                    other => Out::Err(format!("seal failed: {}", other.brief())),
+                };
+                match back {
+                    Out::Ok(m) if m == msg => {
+                        rr.count(&format!("{} core builder reused: token #{} opens to the message", p.name(), (i + 1).min(3)));
+                        rr.distinct(format!("{}|core-reuse|{}|{}|{}", p.name(), i, footer.is_some(), ia.is_some()));
+                    }
+                    other => rr.violation(
+                        format!("{} core-builder-reuse {} seal={}", prop, p.name(), if i == 0 { "first" } else { "later" }),
+                        format!("{}: ONE core builder (payload of {} bytes, footer {:?}, assertion {:?}{}), seal #{} of {}: the token does not open to the message: {}", p.name(), msg.len(), footer, ia, if reconf { ", re-configured before each seal" } else { "" }, i + 1, n, other.brief()),
+                        replay,
+                    ),
+                }
+            }
+        }
+    }
+    total.merge(rr);
+    for &p in protos {
+        total.require(&format!("{} core builder reused: token #2 opens to the message", p.name()), 10);
         for l in LAYERS {
             total.require(&format!("{}/{} ok", p.name(), l.name()), 20);
         }
@@ -418,4 +454,4 @@ pub fn replay(prop: &str, case: &Value) -> Report {
     r
 }
 
-pub const RULE_C01: &str = "cases = boundary-length x {ascii,multi-byte} x footer{none,empty,text} x assertion{none,empty,text} on every key of the catalogue, content-class x footer/assertion catalogue, 64 KiB (thorough: 1 MiB) messages, seeded random (key, nonce, message, footer, assertion), plus generic and batteries-included builder->parser round trips over random claim sets; each case seals with the real library and opens the result with the same key/footer/assertion; oracle = identity. distinct_nontrivial counts distinct (protocol, layer, message-length class, content class, footer class, assertion class) tuples (upper layers: protocol, layer, #claims, footer class, assertion class, parser kind) that produced a token AND opened to exactly the input";
+pub const RULE_C01: &str = "cases = boundary-length x {ascii,multi-byte} x footer{none,empty,text} x assertion{none,empty,text} on every key of the catalogue, content-class x footer/assertion catalogue, 64 KiB (thorough: 1 MiB) messages, seeded random (key, nonce, message, footer, assertion), plus generic and batteries-included builder->parser round trips over random claim sets, plus ONE core builder object sealed from 2-4 times (every token must open to the message); each case seals with the real library and opens the result with the same key/footer/assertion; oracle = identity. distinct_nontrivial counts distinct (protocol, layer, message-length class, content class, footer class, assertion class) tuples (upper layers: protocol, layer, #claims, footer class, assertion class, parser kind) that produced a token AND opened to exactly the input";
